@@ -366,12 +366,21 @@ void rc_rng_reseed(uint64_t seed)
 /* ------------------------------------------------------------ libcrypto allocation accounting */
 static long ossl_live;
 static int ossl_tracked;
-static void *t_malloc(size_t n, const char *f, int l) { (void)f; (void)l; void *p = malloc(n ? n : 1); if (p) ossl_live++; return p; }
+/* called before every OPENSSL_malloc/realloc/free that libjwt's own code makes (the caller's __FILE__ says so): those are
+ * safe scheduling points -- libcrypto holds none of its locks there -- while allocations inside libcrypto are not */
+void (*rc_alloc_hook)(void);
+static void t_hook(const char *f)
+{
+	if (rc_alloc_hook && f && strstr(f, "libjwt/"))
+		rc_alloc_hook();
+}
+static void *t_malloc(size_t n, const char *f, int l) { (void)l; t_hook(f); void *p = malloc(n ? n : 1); if (p) ossl_live++; return p; }
 static void *t_realloc(void *p, size_t n, const char *f, int l)
 {
-	(void)f; (void)l;
+	(void)l;
 	if (!p)
 		return t_malloc(n, f, l);
+	t_hook(f);
 	if (n == 0) {
 		ossl_live--;
 		free(p);
@@ -379,7 +388,7 @@ static void *t_realloc(void *p, size_t n, const char *f, int l)
 	}
 	return realloc(p, n);
 }
-static void t_free(void *p, const char *f, int l) { (void)f; (void)l; if (p) ossl_live--; free(p); }
+static void t_free(void *p, const char *f, int l) { (void)l; if (p) { t_hook(f); ossl_live--; } free(p); }
 int rc_track_alloc(void)
 {
 	ossl_tracked = CRYPTO_set_mem_functions(t_malloc, t_realloc, t_free);
